@@ -9,7 +9,8 @@ MARKERS = ["'", "h", "p"]
 SPACES = [" ", "\t", " ", "　", " ", "  "]
 ODD = ["", " ", "'", "h", "m", "-1", "+1", "0x1", "1e3", "1''", "1'h", "1 2", "1_0", "²", "½", "Ⅻ", "一", "١٢", "٣'", "१२३",
        "𝟙𝟚", "4294967296", "4294967295", "4294967295'", "2147483648'", "99999999999999999999999", "00000000001", "0'", "1.0", "m'", "M",
-       "​1", "1​", "é", "😀", "1/", "//", "1p", "1P", "1H", "٠"]
+       "​1", "1​", "é", "😀", "1/", "//", "1p", "1P", "1H", "٠",
+       "4294967296'", "4294967296h", "4294967296p", "2147483648h", "10000000000'", "99999999999999999999999p", "4294967295h", "2147483647'", "2147483647p"]
 
 
 def spell(rng, elems, absolute):
@@ -65,6 +66,24 @@ def gen(rng, tier):
         ln = rng.randrange(0, 5)
         elems = [rand_index(rng, True if c == "ed25519" else None) for _ in range(ln)]
         yield Case("derivepathstr", [c, hx(seed), tx(spell(rng, elems, rng.random() < 0.7))], "derive-str")
+    yield from gen_nodes(rng, tier)
+
+
+def gen_nodes(rng, tier):
+    """keys built from raw fields (any depth / index / parent fingerprint, e.g. re-imported with a zeroed fingerprint) and a textual
+    path: an absolute path is refused whenever depth > 0, whatever the fingerprint says."""
+    from harness.props.bip32_common import ORDER
+    for i in range(60 if tier == "quick" else 2000):
+        c = ("secp256k1", "nist256p1", "ed25519")[i % 3]
+        k = rng.randrange(1, ORDER[c]).to_bytes(32, "big") if c in ORDER else bytes(rng.randrange(256) for _ in range(32))
+        cc = bytes(rng.randrange(256) for _ in range(32))
+        depth = rng.choice([0, 0, 1, 2, 3, 5, 254, 255])
+        fp = bytes(4) if rng.random() < 0.6 else bytes(rng.randrange(256) for _ in range(4))
+        idx = 0 if rng.random() < 0.5 else rand_index(rng)
+        elems = [rand_index(rng, True if c == "ed25519" else None) for _ in range(rng.randrange(0, 3))]
+        ab = rng.random() < 0.6
+        yield Case("nodepath", [c, hx(k), hx(cc), depth, idx, hx(fp), tx(spell(rng, elems, ab))],
+                   "node-abs" if ab and depth > 0 else "node-path")
 
 
 def relations(rng, tier, rpt):
